@@ -247,7 +247,7 @@ def shape_nested(name):
 def all_shapes(tier):
     sh = [shape_single("M"), shape_single("R")]
     for coll in ("boxed", "retry", "ref"):
-        for kinds in (("MM", "MR", "RR", "MRM", "RRR") if tier == "quick" else ("M", "R", "MM", "MR", "RM", "RR", "MRM", "MMM", "RRR", "RMR", "MRMR", "RRRR")):
+        for kinds in (("MM", "MR", "RR", "MRM", "RRR") if tier == "quick" else ("M", "R", "MM", "MR", "RM", "RR", "MRM", "MMM", "RRR", "RMR", "MRMR", "RMRM")):
             sh.append(shape_refs(coll, kinds))
     for coll in ("owned", "boxed", "retry", "ref"):
         for kinds in (("MR", "RR") if tier == "quick" else ("M", "MR", "RR", "MRM", "RRR", "MRMR")):
